@@ -27,10 +27,25 @@ def main():
              "(suite still passes, demonstration fails with the patch and passes without) and then applied to `/repo`, the registered "
              "checks run, and reverted.", "",
              "| seeded change | property | what it needs to manifest | quick | thorough | checks that report it |", "|---|---|---|---|---|---|"]
-    for mp in sorted(glob.glob(os.path.join(VERIF, "seeded", "*", "meta.json"))):
-        m = json.load(open(mp))
+    metas = [(mp, json.load(open(mp))) for mp in sorted(glob.glob(os.path.join(VERIF, "seeded", "*", "meta.json")))]
+    for mp, m in metas:
+        if m.get("kind") == "control":
+            continue
         rows.append("| %s | %s | %s | %s | %s | %s |" % (os.path.basename(os.path.dirname(mp)), m.get("property"), m.get("needs", "").replace("|", "\\|"),
                                                          m.get("quick", "?"), m.get("thorough", "?"), m.get("caught_by", "")))
+    rows += ["", "### 12.4 Control changes: property-preserving changes written by independent sub-agents (`seeded/n-*/`)", "",
+             "Each was written by a fresh agent that saw only the property text and a scratch worktree, and was asked for a realistic "
+             "maintenance change to the anchored code (refactoring, different internal data structure, reordering of things the statement "
+             "does not order, different timing where the statement allows it) under which the property still holds. Confirmed by hand "
+             "(suite passes, the agent's demonstration passes with and without the patch), then every check whose property is anchored in "
+             "a touched file was run with the patch applied: all must stay silent.", "",
+             "| control change | property | what it changes | checks run | quick |", "|---|---|---|---|---|"]
+    for mp, m in metas:
+        if m.get("kind") != "control":
+            continue
+        ran = sorted(set(k.split("/")[0] for k in m.get("checks", {})))
+        rows.append("| %s | %s | %s | %s | %s |" % (os.path.basename(os.path.dirname(mp)), m.get("property"), m.get("what", "").replace("|", "\\|"),
+                                                   " ".join(ran), m.get("quick", "?")))
     p = os.path.join(VERIF, "DESIGN.md")
     s = open(p).read()
     a, b = s.index(BEGIN) + len(BEGIN), s.index(END)
